@@ -9,7 +9,7 @@ CLAIMED = {
    note='go/types with a source importer defines "type-checks". Signature-directed plugins (fmap, compose, curry ...) are covered by engine F, not here. Known findings are keyed by shrunk (plugin, type, form, failure class).'),
  'C09': dict(engine='G', ref='DESIGN.md 3 (C09), 11.2', technique='TLC enumeration of negative cases (GenCases.tla WithBad) + argument-shape matrix and broken packages run on the real goderive; TLC validation of traces and observations',
    text='TLC enumerates type terms with exactly one chan/func/interface/unsafe.Pointer constituent at every position x 15 plugins x call-site forms; plus all 33 plugin prefixes x 90 argument-list templates (incl. untyped-constant arguments, arity mismatches between compose stages) (arity, mismatches, non-functions, variadic/curried signatures, unordered elements, asymmetric assignability) and 10 broken packages. TLC judges each real run: no panic or hang, exit 0 => derived.gen.go parses and type-checks, non-zero exit => a diagnostic, Add/Generate errors reach the exit status (PkgExit/RunEnd).',
-   note='"Names the call or type" is recorded as a warning only. Exit 0 with a correct file for a shape listed as unsupported is not a violation. 32 open findings (goderive accepts many unsupported shapes and emits ill-typed code).'),
+   note='"Names the call or type" is recorded as a warning only. Exit 0 with a correct file for a shape listed as unsupported is not a violation. 10 open findings remain (untyped nil arguments, deriveDup of a channel of receive-only channels, a struct with a *interface{} field); 20 others were repaired in /repo.'),
  'C07': dict(engine='G', ref='DESIGN.md 3 (C07)', technique='TLC enumeration of edit/crash histories (Regen.tla) and of nested-call chains with the pass loop (RegenChain.tla, stop-rule sensitivity) replayed on the real generator; TLC trace validation of each regeneration run (RegenObs)',
    text='TLC explores Regen.tla: every version of a 5-call-site package (incl. the inner call of the nested one on its own; an external test package in the directory) x up to 2 edits (add/remove call, retype field / argument / the map feeding a nested derive call) x one interrupted write in 5 truncation classes, and exports each history. The harness realises v1, edits to v2, truncates derived.gen.go at byte offsets of the class (all offsets in the thorough tier), runs the real generator once and compares with a scratch run; a second family replays v1->v2 edits over the packages of GoderiveMC under -autoname/-dedup and compares derived.gen.go and the rewritten user files with a scratch run; TLC judges every run trace and the RegenObs observation (exit, bytes, type-check, file removed).',
    note='Trusted: TLC, go/types, hooks. Histories are sampled from the exported set (all single-edit ones always); the model package has 5 call sites; part (B) replays flagged (-autoname/-dedup) histories over GoderiveMC packages, part (C) all 42 chain histories of RegenChain.tla with predicted pass counts compared to the recorded trace. Genuine defects found are listed in KNOWN_FINDINGS.jsonl by minimal failing sub-history.'),
